@@ -8,7 +8,7 @@ statement's declarative rule `Allowed` (source match or wildcard, else default; 
 containing the destination or link-local scope, else default, else drop; ties left open).
 
 What one run does
-  1. TLC checks RouteAllowed / KindRespected / TableSorted / NeverFatal over every configuration
+  1. TLC checks RouteAllowed / KindRespected / TableSorted / SendNeverFails over every configuration
      of <= MaxSocks sockets of one family and every route (IPv4 and IPv6 with scopes).
   2. TLC refutes RouteAllowed for an ascending prefix sort (anti-vacuity).
   3. TLC emits every (configuration, route) of a smaller space with the set of sockets the
@@ -29,7 +29,7 @@ Not bound here (said plainly): the step from a QUIC destination (synthetic addre
 FourTuple, `Sender::poll_send` in transports.rs, needs a live `Socket`; its two ingredients are
 covered separately — the classification of the destination by C18 (decision table) and the
 reverse lookups by C18 (trace validation) — and the remaining glue (unknown synthetic address ->
-Ok(()) without sending; Err/Pending of a transport -> Ok(())) is modelled (`NeverFatal`) but only
+Ok(()) without sending; Err/Pending of a transport -> Ok(())) is modelled (`SendNeverFails`) but only
 exercised at the TransportsSender level: every poll_send result observed here is Ok.
 
 Mutation self-tests done while building (see final report): ascending prefix sort in
